@@ -13,6 +13,7 @@ import (
 	"log"
 	"net/http"
 	"net/http/httptest"
+	"regexp"
 	"sort"
 	"strconv"
 	"strings"
@@ -86,6 +87,20 @@ type LeafData struct {
 // node rejecting its input would; the edit server recovers from such panics
 // and keeps serving.
 const poison = 9000
+
+// errPoison: int parameter values in [errPoison, poison) do not make a node
+// panic; they make the harness PRODUCERS return an error instead of an
+// artifact (the graph then hands out no artifact: a failed request).
+const errPoison = 8000
+
+var errPoisonRe = regexp.MustCompile(`p\d+=8\d\d\d\b`)
+
+func refuses(in string) error {
+	if errPoisonRe.MatchString(in) {
+		return fmt.Errorf("producer refuses its input")
+	}
+	return nil
+}
 
 func (d LeafData) Process() (string, error) {
 	v := d.P.Value()
@@ -180,6 +195,9 @@ type ProdSliceData struct {
 
 func (d ProdSliceData) Process() (artifact.Artifact, error) {
 	detsched.Yield("proc:produce", 1)
+	if err := refuses(d.In.Value()); err != nil {
+		return nil, err
+	}
 	return sliceArtifact{text: d.In.Value(), idx: d.Idx, pts: d.Pts.Value(), yield: d.Yield}, nil
 }
 
@@ -214,6 +232,9 @@ type ProdData struct {
 
 func (d ProdData) Process() (artifact.Artifact, error) {
 	detsched.Yield("proc:produce", 0)
+	if err := refuses(d.In.Value()); err != nil {
+		return nil, err
+	}
 	return textArtifact{data: d.In.Value(), yield: d.Yield}, nil
 }
 
@@ -277,6 +298,10 @@ func (g graphSpec) artifact(prod int, st []int) string {
 		}
 	}
 	out := g.evalNode(g.Producers[prod], st)
+	if !(prod < len(g.RealProducer) && g.RealProducer[prod]) && refuses(out) != nil {
+		// a harness producer returns an error: no artifact
+		return "PANIC"
+	}
 	if sp := g.SliceProducer[prod]; sp >= 0 {
 		out += "+" + renderArr(sp, pattern(st[sp]))
 	}
@@ -592,8 +617,11 @@ func run(c choice.Chooser, opt sim.Options, server bool) sim.Result {
 			switch choice.Pick(c, "op:kind", []int{8, 2, 4, 10, 1}) {
 			case 0:
 				o = op{Kind: opUpdate, Param: usable[c.Intn("op:param", len(usable))], Value: next}
-				if c.Intn("op:poison", 7) == 6 {
+				switch c.Intn("op:poison", 7) {
+				case 6:
 					o.Value = poison + next
+				case 5:
+					o.Value = errPoison + next
 				}
 				next++
 			case 1:
@@ -869,6 +897,8 @@ func run(c choice.Chooser, opt sim.Options, server bool) sim.Result {
 				res.Count("fault:call-names-unknown-or-non-parameter-node", 1)
 			case o.Kind == opUpdate && o.Value >= poison && g.ParamKind[o.Param] == 0:
 				res.Count("fault:poisoned-value(node-panics)", 1)
+			case o.Kind == opUpdate && o.Value >= errPoison && g.ParamKind[o.Param] == 0:
+				res.Count("fault:poisoned-value(producer-returns-error)", 1)
 			}
 		}
 	}
